@@ -7,7 +7,8 @@ it, plus a few context-free renderings of the same text that TLC cannot compute 
 
   extract(data: bytes) -> {
     "ok": bool, "error": str,
-    "sst":   [ {"rich": bool, "runs": [str], "runsx": [str], "cr": bool, "amb": bool} ],
+    "sst":   [ {"rich": bool, "runs": [str], "runsx": [str], "cr": bool, "amb": bool, "hx": bool [, "xu", "du"],
+                "ph": bool, "pht": str, "se": bool} ],                 # se: written as the empty-element tag <si/>
     "xfs":   [ {"id": int, "custom": bool, "code": str} ],            # cellXfs[i] -> numFmtId (-> <numFmt> code)
     "sheets":[ {"name": str, "kind": str, "noref": bool,
                 "cells": [rawcell],                                     # document order
@@ -17,8 +18,13 @@ it, plus a few context-free renderings of the same text that TLC cannot compute 
                 "tcols": [[str]] } ],                                   # column names per table, sorted
     "names": [ {"name": str, "local": int} ] }                          # defined names, sorted
 
-  rawcell = {"r","c",                 position (cells without r= continue after the previous cell / row)
+  rawcell = {"r","c",                 position (cells without r= continue after the previous cell / row); the
+                                      specification derives it again from the next four fields (Decode!CellPosition)
              "nr": bool,              the <c> has no r= attribute
+             "rf": bool,              the <c> is the first one of its <row> element
+             "rra": int,              r= of that <row> (0 = absent)
+             "rpre": [int],           r= (0 = absent) of the cell-less <row> elements between the previous cell's row
+                                      and this one (only on the first cell of a row)
              "t": str, "s": int,      attributes as written ("" / -1 = absent)
              "hv": bool, "vx": str,   <v> present; its text (white space at both ends removed unless t="str")
              "v": str,                the same with ST_Xstring escapes (_xHHHH_) undone for t="str"
@@ -33,8 +39,12 @@ it, plus a few context-free renderings of the same text that TLC cannot compute 
                                       shared formula that carries text; [] otherwise
   runs = text of <t> (plain) or of every <r><t> (rich) with ST_Xstring escapes undone, runsx = before that;
   white space at both ends of a <t> is removed unless xml:space="preserve" is in effect, and `amb` says that
-  this removal changed something (then the specification does not judge the value: XML delivers the white
-  space, Excel drops it);  cr = the part contains a literal CR (after the prolog) and the text a line break -
+  this removal changed something (then the specification does not judge the outer white space: XML delivers
+  it, Excel drops it);  hx = a text contains "_x": then xu / du are the UTF-16 code units of every run before
+  and after the ST_Xstring decoding of pydec.xlsx.xstring - the specification decodes xu itself (Decode!XDecode,
+  a disagreement is a tool error) and does not judge a text whose decoding has a lone surrogate (in runs it
+  is shown as U+FFFD);  ph / pht = the item has phonetic runs <rPh> (not part of its text) / the text of the
+  last one;  cr = the part contains a literal CR (after the prolog) and the text a line break -
   every conforming XML parser has normalised CR LF / CR to LF there.
 
 The formula tokenizer is independent of the library's; TLC checks that the token list renders back to the
@@ -78,8 +88,28 @@ def _t_text(t_el, inherited):
     return raw, amb
 
 
+def units(s):
+    """UTF-16 code units of a text (a lone surrogate stays what it is)"""
+    b = s.encode("utf-16-le", "surrogatepass")
+    return [b[i] | (b[i + 1] << 8) for i in range(0, len(b), 2)]
+
+
+def jsonable(s):
+    """a text with every lone surrogate replaced by U+FFFD (lone surrogates cannot travel as JSON text)"""
+    return s.encode("utf-16-le", "surrogatepass").decode("utf-16-le", "replace")
+
+
+def xfields(rx):
+    """for texts that contain "_x": the code units before (xu) and after (du) pydec.xlsx.xstring, per run, so that the
+    specification can redo the ST_Xstring decoding itself (Decode!XDecode) and see lone surrogates"""
+    if not any("_x" in s for s in rx):
+        return {"hx": False}
+    return {"hx": True, "xu": [units(s) for s in rx], "du": [units(X.xstring(s)) for s in rx]}
+
+
 def rst(el, part_cr):
-    """CT_Rst (<si>, <is>) -> {"rich","runs","runsx","cr","amb"}"""
+    """CT_Rst (<si>, <is>) -> {"rich","runs","runsx","cr","amb","hx"[,"xu","du"],"ph","pht"}
+    ph = the item has phonetic runs (<rPh>), which are not part of its text; pht = text of the last one"""
     sp = el.get("{%s}space" % X.XML_NS) == "preserve"
     runs = _children(el, "r")
     t = _child(el, "t")
@@ -98,8 +128,15 @@ def rst(el, part_cr):
     else:
         s, a = _t_text(t, sp) if t is not None else ("", False)
         rx, amb, rich = [s], a, False
-    return {"rich": rich, "runs": [X.xstring(s) for s in rx], "runsx": rx,
-            "cr": bool(part_cr and any("\n" in s for s in rx)), "amb": amb}
+    phs = _children(el, "rPh")
+    pht = ""
+    if phs:
+        pt = _child(phs[-1], "t")
+        pht = jsonable(X.xstring(_t_text(pt, sp)[0])) if pt is not None else ""
+    out = {"rich": rich, "runs": [jsonable(X.xstring(s)) for s in rx], "runsx": rx,
+           "cr": bool(part_cr and any("\n" in s for s in rx)), "amb": amb, "ph": bool(phs), "pht": pht}
+    out.update(xfields(rx))
+    return out
 
 
 # ---------------------------------------------------------------------------------------------
@@ -374,14 +411,14 @@ def _styles(pkg, part):
     return xfs
 
 
-def _cell(c, crow, ccol, nr, part_cr):
+def _cell(c, crow, ccol, nr, part_cr, rowinfo):
     t = c.get("t", "")
     v = _child(c, "v")
     isel = _child(c, "is")
     f = _child(c, "f")
     vraw = (v.text or "") if v is not None else ""
     vx = vraw if t == "str" else vraw.strip(WS)
-    vv = X.xstring(vx) if t == "str" else vx
+    vv = jsonable(X.xstring(vx)) if t == "str" else vx
     try:
         s = int(c.get("s")) if c.get("s") is not None else -1
     except ValueError:
@@ -389,12 +426,15 @@ def _cell(c, crow, ccol, nr, part_cr):
     raw = {"r": crow, "c": ccol, "nr": nr, "t": t, "s": s, "hv": v is not None, "vx": vx, "v": vv, "vt": vx.strip(WS),
            "vb": num_bits(vx) if t in ("", "n") else "", "vi": int(vx) if (vx.isdigit() and len(vx) < 10) else -1,
            "his": isel is not None, "cr": bool(part_cr and t == "str" and "\n" in vx)}
+    raw.update(rowinfo)
+    raw.update(xfields([vx]) if t == "str" else {"hx": False})
     if isel is not None:
         item = rst(isel, part_cr)
         item["gb"] = num_bits(item["runsx"][-1]) if item["runsx"] else ""
         raw["isr"] = item
     else:
-        raw["isr"] = {"rich": False, "runs": [], "runsx": [], "gb": "", "cr": False, "amb": False}
+        raw["isr"] = {"rich": False, "runs": [], "runsx": [], "gb": "", "cr": False, "amb": False, "hx": False,
+                      "ph": False, "pht": ""}
     if f is None:
         raw["f"] = {"k": "none", "si": -1, "ht": False, "text": "", "toks": []}
     else:
@@ -418,15 +458,24 @@ def _sheet(pkg, part, want_cells=True):
     part_cr = b"\r" in data and b"\r" in re.sub(rb">\s*<", b"><", data[max(data.find(b"?>"), 0):])
     sd = _child(root, "sheetData")
     next_row, n_nr, n_c = 1, 0, 0
+    rpre = []                       # r attributes (0 = absent) of the cell-less <row> elements since the last cell
     if sd is not None and want_cells:
         for row in _children(sd, "row"):
             try:
-                rnum = int(row.get("r")) if row.get("r") is not None else next_row
+                rra = int(row.get("r")) if row.get("r") is not None else 0
             except ValueError:
-                rnum = next_row
+                rra = 0
+            rnum = rra if rra > 0 else next_row
             next_row = rnum + 1
             next_col = 1
-            for c in _children(row, "c"):
+            cs = _children(row, "c")
+            if not cs:
+                rpre.append(rra)
+            for ci, c in enumerate(cs):
+                # what the specification needs to derive the position itself (Decode!RowAfter / CellPosition)
+                rowinfo = {"rf": ci == 0, "rra": rra, "rpre": rpre if ci == 0 else []}
+                if ci == 0:
+                    rpre = []
                 ref = c.get("r")
                 if ref is None:
                     crow, ccol, nr = rnum, next_col, True
@@ -436,7 +485,7 @@ def _sheet(pkg, part, want_cells=True):
                 next_col = (ccol if ccol > 0 else next_col) + 1
                 n_c += 1
                 n_nr += 1 if nr else 0
-                out["cells"].append(_cell(c, crow, ccol, nr, part_cr))
+                out["cells"].append(_cell(c, crow, ccol, nr, part_cr, rowinfo))
     out["noref"] = n_c > 0 and n_nr == n_c
     hl = _child(root, "hyperlinks")
     if hl is not None:
@@ -486,6 +535,10 @@ def extract(data, want_cells=True):
         d = pkg.read(sst_part)
         part_cr = b"\r" in re.sub(rb">\s*<", b"><", d[max(d.find(b"?>"), 0):])
         out["sst"] = [rst(si, part_cr) for si in _children(sroot, "si")]
+        # se: the item is written as an empty-element tag <si/> (the element tree cannot tell it from <si></si>)
+        tags = re.findall(rb"<(?:[A-Za-z_][\w.-]*:)?si(?:\s[^<>]*?)?(/?)>", d)
+        for k, item in enumerate(out["sst"]):
+            item["se"] = bool(len(tags) == len(out["sst"]) and tags[k] == b"/")
     sheets = _child(root, "sheets")
     if sheets is not None:
         for s in _children(sheets, "sheet"):
